@@ -793,7 +793,7 @@ func (e *env) runTranscript(fi int, enc string, in []byte, mode string) {
 		e.sum.Sample(map[string]interface{}{"case": d, "transcript": a})
 	}
 	e.trN++
-	e.runPipeX(enc, in, mode, 0, e.trN%3 == 0)
+	e.runPipeX(enc, in, mode, 0, e.trN%6 == 0)
 }
 
 // longRows builds an all-ASCII input of at least minLen bytes for the format of fixture fi:
